@@ -18,6 +18,9 @@ def clip(s, n):
 
 
 def caught(v):
+    if v.startswith("first run: reported"):
+        m = re.search(r"after (.*?): VIOLATION", v)
+        return "quick tier, at first only as `no-failing-input-found`; concrete input after " + clip(m.group(1) if m else "", 160)
     if "MISSED" not in v:
         return "quick tier"
     m = re.search(r"after (adding .*?|.*?): VIOLATION", v)
